@@ -565,7 +565,7 @@ def check_cases(ctx, cases):
 
 def run(ctx):
     ctx.prove("Props/C18.v")
-    ncase = ctx.n(70, 700)
+    ncase = ctx.n(70, 1500)
     cases = [gen_case(ctx.rng, k, ctx.thorough) for k in range(ncase)]
     ck = check_cases(ctx, cases)
     ctx.cov["distinct_nontrivial"] = len(ck.nontrivial)
